@@ -304,14 +304,14 @@ func (r *race) measure(o *outcome) {
 // ---------------------------------------------------------------------------
 // goroutine-leak oracle
 
-type gsnap map[string]int
+// gsnap is the pre-round baseline: the ids of ALL goroutines alive before the round (ids are
+// never reused, so "not in the baseline" means "started during the round" whatever the
+// goroutine is doing at the moment of a snapshot).
+type gsnap map[int64]bool
 
 var gbuf = make([]byte, 1<<20)
 
-// snapshot counts live goroutines that have a frame (or creator) in one of the given
-// package prefixes (e.g. "tunnox-core/internal/client/tunnel."), keyed by
-// "<innermost matching function> <- <creator>".
-func snapshot(prefixes []string) gsnap {
+func allStacks() string {
 	var n int
 	for {
 		n = runtime.Stack(gbuf, true)
@@ -320,14 +320,66 @@ func snapshot(prefixes []string) gsnap {
 		}
 		gbuf = make([]byte, 2*len(gbuf))
 	}
+	return string(gbuf[:n])
+}
+
+func goid(header string) int64 {
+	// "goroutine 123 [select]:"
+	if !strings.HasPrefix(header, "goroutine ") {
+		return -1
+	}
+	s := header[len("goroutine "):]
+	if i := strings.IndexByte(s, ' '); i > 0 {
+		s = s[:i]
+	}
+	var id int64
+	for _, c := range s {
+		if c < '0' || c > '9' {
+			return -1
+		}
+		id = id*10 + int64(c-'0')
+	}
+	return id
+}
+
+// snapshot records the baseline. The prefixes argument is unused (kept for call-site symmetry
+// with settle).
+func snapshot(prefixes []string) gsnap {
 	out := gsnap{}
+	for _, g := range strings.Split(allStacks(), "\n\n") {
+		h := g
+		if i := strings.IndexByte(g, '\n'); i >= 0 {
+			h = g[:i]
+		}
+		if id := goid(h); id >= 0 {
+			out[id] = true
+		}
+	}
+	return out
+}
+
+// lastLeakDump holds the stacks seen when settle last gave a leak verdict.
+var lastLeakDump string
+
+// leakMsg formats a leak verdict with the stacks of the goroutines inside the code under test.
+func leakMsg(l []string) string { return fmt.Sprintf("%v; stacks: %s", l, lastLeakDump) }
+
+// leakedNow lists goroutines started after the baseline that have a frame (or creator) in one
+// of the given package prefixes (e.g. "tunnox-core/internal/client/tunnel."), described as
+// "<innermost matching function> <- <creator> xN". runnable reports whether one of them is
+// running/runnable (still making progress).
+func leakedNow(prefixes []string, base gsnap) (ks []string, runnable bool) {
+	counts := map[string]int{}
 	first := true
-	for _, g := range strings.Split(string(gbuf[:n]), "\n\n") {
+	for _, g := range strings.Split(allStacks(), "\n\n") {
 		if first { // the calling goroutine comes first
 			first = false
 			continue
 		}
 		lines := strings.Split(g, "\n")
+		if base[goid(lines[0])] {
+			continue
+		}
 		inner, creator := "", ""
 		for _, ln := range lines[1:] {
 			if strings.HasPrefix(ln, "\t") {
@@ -366,21 +418,16 @@ func snapshot(prefixes []string) gsnap {
 		if inner == "" {
 			inner = "(outside)"
 		}
-		out[shortFunc(inner)+" <- "+shortFunc(creator)]++
-	}
-	return out
-}
-
-// leaked returns the keys whose count exceeds the baseline.
-func leaked(base, cur gsnap) []string {
-	var ks []string
-	for k, n := range cur {
-		if n > base[k] {
-			ks = append(ks, fmt.Sprintf("%s x%d", k, n-base[k]))
+		if strings.Contains(lines[0], "[running") || strings.Contains(lines[0], "[runnable") {
+			runnable = true
 		}
+		counts[shortFunc(inner)+" <- "+shortFunc(creator)]++
+	}
+	for k, n := range counts {
+		ks = append(ks, fmt.Sprintf("%s x%d", k, n))
 	}
 	sort.Strings(ks)
-	return ks
+	return ks, runnable
 }
 
 // settle polls until no goroutine of the component beyond the baseline remains, at most
@@ -393,19 +440,17 @@ func settle(prefixes []string, base gsnap, maxWait time.Duration) []string {
 		if i < 3 {
 			runtime.Gosched()
 		}
-		l := leaked(base, snapshot(prefixes))
+		l, runnable := leakedNow(prefixes, base)
 		if len(l) == 0 {
 			return nil
 		}
 		if time.Now().After(deadline) {
 			// goroutines that are runnable are finishing late (starved on a loaded machine), not
 			// leaked: keep polling, but never longer than 5x the bound
-			if _, prog := repoGoroutines(0); !prog || time.Now().After(deadline.Add(4*maxWait)) {
+			if !runnable || time.Now().After(deadline.Add(4*maxWait)) {
+				lastLeakDump, _ = repoGoroutines(2500)
 				return l
 			}
-		}
-		if debugTiming && i > 6 {
-			fmt.Printf("SETTLE i=%d %v\n", i, l)
 		}
 		time.Sleep(sleep)
 		if sleep < 20*time.Millisecond {
